@@ -916,10 +916,13 @@ def sym_sqrt(x):
         if rn * rn == n and rd * rd == d:
             return SymR(Fraction(rn, rd))
     c = ctx()
+    reduced = None
     try:
         poly, _prims = _poly(x.term(), c, for_trig=False)
         poly = _reduce_trig(_reduce_sqrt_squares(poly, _prims, c), c)
         key = ('sqrt', tuple(sorted(poly.items())))
+        if 0 < len(poly) <= 4:
+            reduced = _poly_term(poly, _prims)
     except Exception:
         key = ('sqrt', x.term().get_id())
         c.keepalive[key] = x.term()
@@ -935,6 +938,10 @@ def sym_sqrt(x):
     r = c.fresh('sqrt')
     c.add_axiom(r >= 0)
     c.add_axiom(r * r == x.term())
+    if reduced is not None:
+        # the same radicand after the exact reductions (s^2 + c^2 = 1, (sqrt v)^2 = v) that already define the
+        # cache key: hands the solver r^2 = <short polynomial> instead of leaving the reduction to it
+        c.add_axiom(r * r == reduced)
     c.defs[str(r)] = ('sqrt', x.term())
     out = SymR(r)
     c.bases[key] = out
